@@ -15,24 +15,26 @@ import (
 )
 
 type Config struct {
-	Workers       int
-	MaxSteps      int
-	MaxConcretize int
-	MaxSymIndex   int
-	Unwind        int
-	MaxPaths      int
-	Params        map[string]int
-	KnownIDs      map[string]bool
-	Z3            string
-	QueryTimeoutMs int
-	Goroutines    bool
-	VirtualTime   bool
-	NoMerge       bool
-	Seed          int64
-	Samples       int // completed paths kept for native validation
-	Deadline      time.Time
-	Debug         bool
-	KeepPerSite   int
+	Workers          int
+	MaxSteps         int
+	MaxConcretize    int
+	MaxSymIndex      int
+	Unwind           int
+	MaxPaths         int
+	Params           map[string]int
+	KnownIDs         map[string]bool
+	Z3               string
+	QueryTimeoutMs   int
+	Goroutines       bool
+	VirtualTime      bool
+	NoMerge          bool
+	Seed             int64
+	Samples          int // completed paths kept for native validation
+	Deadline         time.Time
+	Debug            bool
+	KeepPerSite      int
+	LazySlices       bool
+	FallbackTimeoutS int
 }
 
 type WorkItem struct {
@@ -56,46 +58,47 @@ type PathSample struct {
 }
 
 type Result struct {
-	Harness      string
-	Paths        int // completed paths
-	Infeasible   int
-	Incomplete   map[string]int // reason class -> count
-	IncompleteEx []string
-	Decisions    int
-	Queries      int
-	Pruned       int
-	Merges       int
-	Steps        int64
-	Violations   []Violation
-	ViolCount    map[string]int // site|known -> count
-	AssertSites  map[string]int
-	Reached      map[string]int
-	Samples      []PathSample
-	Functions    map[string]bool
-	Solver       SolverStats
-	SolverErrors []string
-	Truncated    bool
-	InitSteps    int
-	ForeignGlobals map[string]bool // globals of packages whose init is not run, read as zero
-	Wall         time.Duration
-	Fatal        string
+	Harness                    string
+	Paths                      int // completed paths
+	Infeasible                 int
+	Incomplete                 map[string]int // reason class -> count
+	IncompleteEx               []string
+	Decisions                  int
+	Queries                    int
+	Pruned                     int
+	Fallbacks, FallbackDecided int
+	Merges                     int
+	Steps                      int64
+	Violations                 []Violation
+	ViolCount                  map[string]int // site|known -> count
+	AssertSites                map[string]int
+	Reached                    map[string]int
+	Samples                    []PathSample
+	Functions                  map[string]bool
+	Solver                     SolverStats
+	SolverErrors               []string
+	Truncated                  bool
+	InitSteps                  int
+	ForeignGlobals             map[string]bool // globals of packages whose init is not run, read as zero
+	Wall                       time.Duration
+	Fatal                      string
 }
 
 type Explorer struct {
-	cfg   Config
-	prog  *ssa.Program
-	pkg   *ssa.Package
-	fn    *ssa.Function
-	mu    sync.Mutex
-	cond  *sync.Cond
-	queue []WorkItem
-	active int
-	popped int
-	res   Result
-	rng   *rand.Rand
-	seen  int
-	stop  bool
-	logging bool
+	cfg         Config
+	prog        *ssa.Program
+	pkg         *ssa.Package
+	fn          *ssa.Function
+	mu          sync.Mutex
+	cond        *sync.Cond
+	queue       []WorkItem
+	active      int
+	popped      int
+	res         Result
+	rng         *rand.Rand
+	seen        int
+	stop        bool
+	logging     bool
 	whereSample string
 }
 
@@ -122,10 +125,13 @@ func NewExplorer(prog *ssa.Program, pkg *ssa.Package, fn *ssa.Function, cfg Conf
 		}
 	}
 	if cfg.QueryTimeoutMs == 0 {
-		cfg.QueryTimeoutMs = 20000
+		cfg.QueryTimeoutMs = 10000
 	}
 	if cfg.Samples == 0 {
 		cfg.Samples = 8
+	}
+	if cfg.FallbackTimeoutS == 0 {
+		cfg.FallbackTimeoutS = 60
 	}
 	if cfg.KeepPerSite == 0 {
 		cfg.KeepPerSite = 3
@@ -189,6 +195,14 @@ func (ex *Explorer) finish() {
 }
 
 func (ex *Explorer) noteUnknown() {}
+func (ex *Explorer) noteFallback(r SatResult) {
+	ex.mu.Lock()
+	ex.res.Fallbacks++
+	if r != Unknown {
+		ex.res.FallbackDecided++
+	}
+	ex.mu.Unlock()
+}
 func (ex *Explorer) noteForeignGlobal(name string) {
 	ex.mu.Lock()
 	if ex.res.ForeignGlobals == nil {
@@ -297,6 +311,7 @@ func (in *Interp) resetPath(it WorkItem) {
 	}
 	in.evc = evalCache{}
 	in.asserted = map[*Term]bool{}
+	in.pc = in.pc[:0]
 	in.inputs = nil
 	in.inputCnt = map[string]int{}
 	in.pcLen = 0
